@@ -23,6 +23,9 @@ def run(ctx):
     for pr in problems:
         if pr["kind"] == "left-held":
             ctx.violation("c16:left-held:" + pr["site"], "scenario %(scenario)s: a mutex locked at %(site)s (%(mode)s) was still held when the program had ended and everything was closed" % pr, pr)
+        elif pr["kind"] == "deadlock-observed":
+            ctx.violation("c16:deadlock-observed:" + "+".join(sorted(c["waits_at"] for c in pr["cycle"])),
+                          "scenario %s: goroutines waiting for each other's mutexes after everything had ended: %s" % (pr["scenario"], pr["cycle"]), pr)
         elif pr["kind"] == "still-waiting":
             ctx.violation("c16:still-waiting:" + pr["site"], "scenario %(scenario)s: a goroutine was still waiting for the mutex at %(site)s when everything had ended (held since %(holder_sites)s)" % pr, pr)
     pj = os.path.join(out, "progs.json")
